@@ -106,23 +106,62 @@ def stratum(c):
 
 
 def stratified(ctx, cases, n):
+    """round-robin over the input classes (klass), inside a class round-robin over its finer strata"""
     groups = {}
     for c in cases:
-        groups.setdefault(stratum(c), []).append(c)
-    keys = sorted(groups, key=repr)
-    for k in keys:
-        ctx.rng.shuffle(groups[k])
+        groups.setdefault(klass(c), {}).setdefault(stratum(c), []).append(c)
+    nstrata = sum(len(g) for g in groups.values())
+    order = {}
+    for k in sorted(groups):
+        subs = sorted(groups[k], key=repr)
+        for sk in subs:
+            ctx.rng.shuffle(groups[k][sk])
+        ctx.rng.shuffle(subs)
+        order[k] = subs
+    keys = sorted(groups)
     ctx.rng.shuffle(keys)
     out = []
     while len(out) < n and keys:
         for k in list(keys):
-            if not groups[k]:
+            subs = order[k]
+            while subs and not groups[k][subs[0]]:
+                subs.pop(0)
+            if not subs:
                 keys.remove(k)
                 continue
-            out.append(groups[k].pop())
+            sk = subs.pop(0)
+            out.append(groups[k][sk].pop())
+            subs.append(sk)
             if len(out) >= n:
                 break
-    return out, len(groups)
+    return out, nstrata
+
+
+def klasses_of(vals, maxlen, ppos, epos):
+    """input classes (ExecFile / socket position relative to the list) present in a configuration space"""
+    import itertools
+    out = set()
+    for n in range(maxlen + 1):
+        for f in itertools.product([-1] + vals, repeat=n):
+            f = list(f)
+            for e in epos:
+                for p in ppos:
+                    if p not in f and p != e:
+                        out.add((rel(e, f), rel(p, f)))
+    return out
+
+
+def quick_positions(ctx, vals, maxlen):
+    """two socket and two ExecFile positions for the quick tier: of 40 seeded draws the one whose
+    configuration space shows the most relative placements of ExecFile and socket w.r.t. the list"""
+    best = None
+    for _ in range(40):
+        ppos = sorted(ctx.rng.sample(ALLPOS, 2))
+        epos = [0] + sorted(ctx.rng.sample(ALLPOS, 2))
+        k = len(klasses_of(vals, maxlen, ppos, epos))
+        if best is None or k > best[0]:
+            best = (k, ppos, epos)
+    return best[1], best[2]
 
 
 def pick_cg(ctx, c):
@@ -144,8 +183,7 @@ def run(ctx):
         if t:
             ppos, epos = ALLPOS, [0] + ALLPOS
         else:
-            ppos = sorted(ctx.rng.sample(ALLPOS, 2))
-            epos = [0] + sorted(ctx.rng.sample(ALLPOS, 2))
+            ppos, epos = quick_positions(ctx, vals3, 3)
         ctx.cov["mc_lists3"] = dict(pipe_pos=ppos, exec_pos=epos)
         mcs.append(("mc_lists3", Bg(ctx, "FdShuffle", cfg=mc_cfg(vals3, 3, ppos, epos, 18), workers=4,
                                     timeout=ctx.pick(300, 1200))))
